@@ -116,8 +116,9 @@ def run(ck):
             if c.get('k') == 'Binary' and c.get('op') == 'Eq':
                 idx = sorted(bs.get((H.root_local(s) or {}).get('hid'), {}).get('index', -1) for s in (c['l'], c['r']))
                 tv = [pp(v) for v in H.value_exprs(top['then'])]
-                walks_in_else = 'els' in top and any(x.get('m') == 'base_classes' for x in H.calls_in(top['els'])) and \
-                    not any(x.get('m') == 'base_classes' for x in H.calls_in(top['then']))
+                WALK = ('base_classes', 'find_map_base_classes')
+                walks_in_else = 'els' in top and any(x.get('m') in WALK for x in H.calls_in(top['els'])) and \
+                    not any(x.get('m') in WALK for x in H.calls_in(top['then']))
                 ok = idx == [0, 1] and tv == ['Some(Ok(()))'] and walks_in_else
         ck.ob('R17.2', 'reflexive-first', ok, L.loc(top) if top else '', 'if self == base { Some(Ok(())) } else { walk the bases }')
         # the walk closure compares each ancestor with base
@@ -156,7 +157,8 @@ def run(ck):
             tv = list(H.value_exprs(top['then']))
             pb = {b['hid'] for b in H.pat_bindings(top['c']['pat'])}
             returns_it = len(tv) == 1 and tv[0].get('k') == 'Call' and (tv[0].get('def') or '').endswith('Option::Some') and (H.root_local(tv[0]['args'][0]) or {}).get('hid') in pb
-            walks_else = 'els' in top and any(x.get('m') == 'base_classes' for x in H.calls_in(top['els'])) and any(x.get('m') == 'find_map' for x in H.calls_in(top['els']))
+            walks_else = 'els' in top and ((any(x.get('m') == 'base_classes' for x in H.calls_in(top['els'])) and any(x.get('m') == 'find_map' for x in H.calls_in(top['els']))) or
+                                           any(x.get('m') == 'find_map_base_classes' and x['args'] and bs.get((H.root_local(x['args'][0]) or {}).get('hid'), {}).get('index') == 1 for x in H.calls_in(top['els'])))
             ok = is_f_self and returns_it and walks_else
         ck.ob('R17.3', 'self-before-bases', ok, L.loc(top) if top else '', 'if let Some(r) = f(self) { Some(r) } else { base_classes().find_map(..) }')
 
@@ -365,17 +367,65 @@ def run(ck):
                 ok = recv_other and arg_cls and clone_cls
         ck.ob('R17.8', 'common-base-shape', ok, L.loc(cb['body']), 'self.walk(|cls| other.is_derived_from_pedantic(cls).map(.. cls.clone()))')
 
-    # ---- R17.9 error items must not end the search (combinator algebra, evaluated) ----------------------------------
+    # ---- R17.9 error items must not end the search ------------------------------------------------------------------------------------
+    # two shapes are understood: the iterator form `base_classes().find_map(<closure>)`, whose closure is evaluated on an Err item, and
+    # the loop form of a helper (`for r in self.base_classes() { match r { Ok(c) => .., Err(e) => .. } }`), read path-wise
     import aeval
     n9 = 0
+
+    def loop_walk(fn):
+        """(ok, why) for a helper that walks base_classes() in a `for` loop"""
+        lp = next((n for n in walk(fn['body']) if n.get('k') == 'For' and any(x.get('m') == 'base_classes' for x in H.calls_in(n['iter']))), None)
+        if lp is None:
+            return None
+        mt = next((n for n in walk(lp['body']) if n.get('k') == 'Match' and (H.root_local(n['e']) or {}).get('hid') in {b['hid'] for b in H.pat_bindings(lp['pat'])}), None)
+        if mt is None:
+            return (False, 'the loop over base_classes() does not match on the item')
+        err = next((a for a in mt['arms'] if pp(a['pat']).startswith('Err(')), None)
+        okarm = next((a for a in mt['arms'] if pp(a['pat']).startswith('Ok(')), None)
+        if err is None or okarm is None or len(mt['arms']) != 2:
+            return (False, 'arms: %s' % [pp(a['pat'], maxlen=30) for a in mt['arms']])
+        leaves = [x.get('k') for x in walk(err['body'], enter_closures=False) if x.get('k') in ('Ret', 'Break', 'Try')]
+        if leaves:
+            return (False, 'the Err arm leaves the loop (%s): a super class that does not resolve ends the search, so the answer depends on where it is listed' % leaves[0].lower())
+        # Ok arm: return only what f found
+        rets = [x for x in walk(okarm['body'], enter_closures=False) if x.get('k') == 'Ret']
+        good = len(rets) == 1
+        if good:
+            iff = next((a for a in H.ancestors(fn, rets[0]) if a.get('k') == 'If'), None)
+            good = iff is not None and iff['c'].get('k') == 'LetCond' and pp(iff['c']['pat']).startswith('Some(') and any(x is rets[0] for x in walk(iff['then'])) and \
+                H.strip_refs(iff['c']['e']).get('k') == 'Call'
+        if not good:
+            return (False, 'the Ok arm does not simply return what f(&class) found')
+        # after the loop: the remembered error, if any
+        vals = [H.strip_refs(v) for v in H.value_exprs(fn['body'])]
+        tail_ok = len(vals) == 1 and vals[0].get('k') == 'MCall' and vals[0].get('m') == 'map' and 'Err' in pp(vals[0]['args'][0], maxlen=40)
+        if not tail_ok:
+            return (False, 'after the loop the result is %s, not <first error>.map(Err)' % [pp(v, maxlen=40) for v in vals])
+        return (True, 'Err items are remembered and the loop goes on; the first hit of f ends it; the remembered error is the answer only if nothing was found')
+    helper = L.fn('typemap::class::Class::find_map_base_classes')
+    hres = loop_walk(helper) if helper is not None else None
+    if helper is not None:
+        ck.analysed(helper['path'])
     for path in ('typemap::class::Class::is_derived_from_pedantic', 'typemap::class::Class::find_map_self_and_base_classes'):
         fn = L.fn(path)
         if fn is None:
             ck.ob('R17.9', 'error-item-does-not-end-the-search|%s' % short(path), False, '', 'fn not found')
             continue
         fm = next((c for c in H.calls_in(fn['body']) if c.get('m') == 'find_map' and any(x.get('m') == 'base_classes' for x in H.calls_in(c['recv']))), None)
+        dl = next((c for c in H.calls_in(fn['body']) if c.get('m') == 'find_map_base_classes'), None)
+        if fm is None and dl is not None and hres is not None:
+            n9 += 1
+            ck.ob('R17.9', 'error-item-does-not-end-the-search|%s' % short(path), hres[0], L.loc(dl), 'walks through find_map_base_classes(): ' + hres[1], fn=fn['path'])
+            ck.ob('R17.9', 'matching-item-ends-search-others-continue|%s' % short(path), hres[0], L.loc(dl), 'walks through find_map_base_classes(): ' + hres[1], fn=fn['path'])
+            continue
         if fm is None or fm['args'][0].get('k') != 'Closure':
-            ck.ob('R17.9', 'error-item-does-not-end-the-search|%s' % short(path), False, L.loc(fn['body']), 'base_classes().find_map(<closure>) not found')
+            own = loop_walk(fn)
+            if own is not None:
+                n9 += 1
+                ck.ob('R17.9', 'error-item-does-not-end-the-search|%s' % short(path), own[0], L.loc(fn['body']), own[1], fn=fn['path'])
+                continue
+            ck.ob('R17.9', 'error-item-does-not-end-the-search|%s' % short(path), False, L.loc(fn['body']), 'neither base_classes().find_map(<closure>) nor a loop over base_classes() found')
             continue
         n9 += 1
         I = aeval.Interp(L, lenient=True)
@@ -408,7 +458,7 @@ def run(ck):
             cases.append((item, r, isinstance(r, tuple) and r[0] == want and (want == 'None' or (isinstance(r[1], tuple) and r[1][0] == 'Ok'))))
         ck.ob('R17.9', 'matching-item-ends-search-others-continue|%s' % short(path), all(c[2] for c in cases), L.loc(fm),
               '; '.join('%r -> %r' % (c[0], c[1]) for c in cases), fn=fn['path'])
-    ck.floor('R17.9', n9, 2, 'find_map walks over base_classes()')
+    ck.floor('R17.9', n9, 2, 'walks over base_classes()')
 
     # ---- R17.10 identity of classes (what the visited set, `self == base` and `&c == base` rely on) -------------------------------
     eqf = next((f for f in L.fn_list if 'typemap::util::TypeDataRef' in f['path'] and f['name'] == 'eq' and f.get('impl_trait', '').endswith('PartialEq')), None)
